@@ -89,6 +89,7 @@ def parseOp (ts : List String) : Option Op :=
   | ["rf", n] => do pure (.removeFire (← n.toNat?))
   | ["al", n, a, b] => do pure (.addLeak (← n.toNat?) (← boolP a) (← boolP b))
   | ["rlk", n] => do pure (.removeLeak (← n.toNat?))
+  | ["asd", n, p] => do pure (.assignDemand (← n.toNat?) (← p.toNat?))
   | ["ssn", n, nd] => do pure (.setSourceNode (← n.toNat?) (← nd.toNat?))
   | ["ssp", l, p, "O"] => do pure (.setSpeedPattern (← l.toNat?) (← optP p))     -- the Pattern object instead of its name
   | ["shp", n, p, "O"] => do pure (.setHeadPattern (← n.toNat?) (← optP p))
@@ -214,6 +215,7 @@ def handle (st : Variant × Reg) (line : String) : (Variant × Reg) × String :=
   | ["reset", "repaired"] => ((repaired, init), "ready")
   | ["reset", "round1"] => ((round1, init), "ready")
   | ["reset", "round3"] => ((round3, init), "ready")
+  | ["reset", "round4"] => ((round4, init), "ready")
   | ["snap"] => (st, snapS st.2)
   | ["inv"] => (st, invS st.2)
   | "check" :: _ =>
